@@ -4,12 +4,18 @@ LEAN_MODULE = "Hw.Props.C15"
 NS = "Hw.Props.C15."
 THEOREMS = [NS + t for t in """C15_kinds_partition C15_kinds_capacity C15_kinds_capacity_history C15_kinds_infos
 C15_by_cpuset_spec C15_by_cpuset_einval C15_register_einval C15_efficiency_shape C15_forced_range
-C15_defect_stale_slot_reachable""".split()]
+C15_defect_stale_slot_reachable
+C15_ranking_sorted C15_default_key C15_efficiency_values C15_efficiency_forced_consistent C15_sort_algorithm_irrelevant
+C15_by_cpuset_exact C15_register_algebra C15_internal_register_refines C15_regG_overwrite C15_refinement
+C15_restrict_refines C15_partition_from_refinement C15_infos_from_refinement C15_forced_from_history
+C15_efficiency_order_by_cells C15_finding_split_drops_forced
+C15_kinds_are_classes C15_internal_register_classes C15_unranked_keeps_order""".split()]
 CHECK_MODULES = ["Hw.Props.C15"]
 TRUSTED = ["hwloc_bitmap_compare_inclusion / and / andnot / iszero enter the model through their set-level meaning on finite "
            "sets (Nat masks); the bitmap layer itself is C03",
            "libc atoi modelled as (int) strtol base 10 (whitespace, sign, digits, clamp to long, cast mod 2^32); qsort "
-           "modelled as insertion sort (only reached with pairwise distinct ranking values)",
+           "modelled as insertion sort (only reached with pairwise distinct ranking values; C15_sort_algorithm_irrelevant proves that "
+           "every correct sort then returns the same array)",
            "hwloc_topology_restrict / dup / XML export+import enter the model only through what they do to the cpukinds "
            "array and the root cpuset (root := root & set, EINVAL when empty)"]
 ASSUMPTIONS = ["finite cpusets; fewer than 2^30 kinds (no wrap in 1U<<bits); malloc/realloc never fail; strings in info values "
@@ -19,7 +25,10 @@ ASSUMPTIONS = ["finite cpusets; fewer than 2^30 kinds (no wrap in 1U<<bits); mal
                "harness unless VERIF_C15_INCLUDE_STALE_SLOT_DEFECT=1"]
 MODELLED = ("modelled: all of hwloc/cpukinds.c except allocation failure paths (register incl. capacity, split/merge loop, info "
             "union, forced-efficiency rule; every ranking strategy of HWLOC_CPUKINDS_RANKING; restrict; dup; get_nr/get_info/"
-            "get_by_cpuset), the cpukind part of XML export/import as re-registration; exercised but not modelled: the topology "
+            "get_by_cpuset), the cpukind part of XML export/import as re-registration; hwloc_internal_cpukinds_register is also "
+            "driven directly (flags 0 / OVERWRITE / invalid) in `+ireg` side streams, outside the candidate-finding class "
+            "'flags-0 split of a kind with a known, different forced efficiency' (corpus/cpukinds.findings/, evidence key "
+            "candidate_findings, never a verdict); exercised but not modelled: the topology "
             "tree side of restrict/dup/XML, libxml vs nolibxml parsing")
 
 
